@@ -91,6 +91,13 @@ def programs(ctx):
         [[C("c2")], [R("c2")], [F("c1"), C("c1")]],
         [[C("c2"), C("c2")], [F("c1")], [R("c2"), R("c1"), R("c9")]],
     ]
+    core += [
+        # the last reference to k1 is dropped through the promised client, untouched since Fulfill (its cached hook is still the
+        # resolved promise hook), while a call made through a direct reference is inside k1
+        [[C("c1")], [F("c1"), R("c1"), R("c9"), R("c2")]],
+        [[C("c9"), R("c9")], [F("c1"), R("c1"), R("c2")]],
+        [[C("c1")], [F("c1")], [R("c1"), R("c9"), R("c2")]],
+    ]
     cb = 1500 if ctx.quick else 8000      # hand-picked race programs are explored (nearly) exhaustively
     for i, c in enumerate(core):
         progs.append({"id": "core-%d" % i, "threads": c, "budget": cb})
